@@ -1,0 +1,10 @@
+//go:build verif
+
+package store
+
+// VerifSetFlushRate sets the measured flush rate.
+func (s *Store) VerifSetFlushRate(r float64) {
+	s.rateLk.Lock()
+	s.flushRate = r
+	s.rateLk.Unlock()
+}
